@@ -35,7 +35,7 @@ TOL = 1e-5
 
 def gen_struct(rng, depth=0, big=False):
   r = rng.random()
-  if depth >= 2 or r < 0.45:
+  if depth >= 2 or r < (0.15 if depth == 0 else 0.5):
     shape = rng.choice([[], [], [1], [2], [3], [0], [2, 2], [1, 3], [2, 0]] + ([[4, 3], [7]] if big else []))
     return ['a', shape]
   n = rng.randrange(1, 4)
